@@ -433,6 +433,31 @@ func runC18(tier string) int {
 			}
 			close(lines)
 		}()
+		// "never grows without bound": the worker's resident set is sampled; a compile of a tiny input
+		// that drives it beyond 3 GiB is stopped and counts like a worker death.
+		stopMem := make(chan struct{})
+		defer close(stopMem)
+		go func() {
+			t := time.NewTicker(300 * time.Millisecond)
+			defer t.Stop()
+			for {
+				select {
+				case <-stopMem:
+					return
+				case <-t.C:
+					b, err := os.ReadFile(fmt.Sprintf("/proc/%d/statm", cmd.Process.Pid))
+					if err != nil {
+						return
+					}
+					var size, rss int64
+					fmt.Sscanf(string(b), "%d %d", &size, &rss)
+					if rss*4096 > 3<<30 {
+						cmd.Process.Kill()
+						return
+					}
+				}
+			}
+		}()
 		at := lo
 		done := false
 		limit := 20 * time.Second
